@@ -657,6 +657,58 @@ def pair(env, a, b):
 
 
 @ghost()
+def mcall_rows(env, obj):
+    """the rows a shaped `get_request_handlers()` call returned for this receiver"""
+    from .builtins_theory import shaped_rows
+    kind = env.interp.method_disciplines["get_request_handlers"]
+    return shaped_rows(env.interp, "get_request_handlers", env.to_val(obj), kind[1], kind[2])
+
+
+@ghost()
+def lookup(env, d, k):
+    return V("sym", t=T.F_lookup(env.to_val(d), env.to_val(k)))
+
+
+@ghost()
+def mok(env, name, obj, *args):
+    ts = [env.to_val(obj)] + [env.to_val(a) for a in args]
+    return z3.Function(f"mok_{name}", *([T.Val] * len(ts)), T.B)(*ts)
+
+
+@ghost()
+def reiterable(env, x):
+    """a container that can be iterated any number of times (list / tuple / set / dict), not a one-shot producer"""
+    if isinstance(x, V):
+        if x.kind in ("ref", "tuple"):
+            return True
+        if x.kind == "const":
+            return not hasattr(x.d, "__next__")
+        if x.kind in ("gen", "iter"):
+            return False
+        return T.F_sub(T.F_cls(env.to_val(x)), env.interp.reg.cls(__import__("collections.abc").abc.Collection))
+    return not hasattr(x, "__next__")
+
+
+@ghost()
+def opaque_res(env, name, *args):
+    ts = [env.to_val(a) for a in args]
+    return V("sym", t=z3.Function(f"opq_res_{name}", *([T.Val] * len(ts)), T.Val)(*ts))
+
+
+@ghost()
+def mcalls(env, name):
+    """how many times the path called method `name` on symbolic objects"""
+    return sum(1 for c in env.st.calls if isinstance(c[0], str) and c[0] == name)
+
+
+@ghost()
+def calls_to(env, f):
+    """how many times the path called the symbolic callable f (syntactic identity of the callee term)"""
+    ft = env.to_val(f)
+    return sum(1 for c in env.st.calls if isinstance(c[0], z3.ExprRef) and z3.eq(c[0], ft))
+
+
+@ghost()
 def same_object(env, a, b):
     if isinstance(a, V) and isinstance(b, V) and a.kind == "ref" and b.kind == "ref":
         ia = a.tag[1] if a.tag and a.tag[0] == "old_of" else a.d
